@@ -6,7 +6,7 @@ by call against the list-of-lists reference model in engines/circuit_model.py an
 freshly rebuilt circuit (cache coherence).  See DESIGN.md section 3 (E5) and section 4 (C05).
 
 Violation classes: C05-OVERLAP, C05-LOST, C05-DUP, C05-ATOMIC, C05-ORDER, C05-PLACE, C05-RETURN,
-C05-STALE:<query>[@iter-raises], C05-PLACEMENT-CACHE, C05-ALIAS, C05-HASH, C05-FACTORIZE, C05-NORAISE (a call the
+C05-STALE:<query>[@iter-raises], C05-PLACEMENT-CACHE, C05-ALIAS, C05-HASH, C05-FACTORIZE, C05-QUERY (a query against the model), C05-NORAISE (a call the
 documentation says fails returned normally), C05-SUT-EXCEPTION (runner).  Fingerprints are
 `<class>@<fault kind>:<method that last created/edited the circuit>`.  A violation whose
 fingerprint is listed in known_findings.json is recorded (class suffix `~known`), the circuit
@@ -289,6 +289,7 @@ class Run:
         self.faults_on: Dict[str, int] = {}
         self.n_mut = 0
         self.do_factor = False
+        self.pending_fp: Optional[str] = None   # the call under way feeds an input named in PENDING (enforced)
 
     # ------------------------------------------------------------------ reporting
     def flag(self, cls: str, msg: str, fp: Optional[str] = None, who: Optional[int] = None) -> None:
@@ -298,6 +299,8 @@ class Run:
         circuit concerned."""
         method, fault = self.cur if who is None else self.pool[who].last
         base = cls.split(":")[0]
+        if fp is None and self.pending_fp is not None and who is None:
+            fp = f"{base}@pending:{self.pending_fp}"
         if fp is None:
             fp = f"{base}@{fault}:{method}"
         if fault == "iter-raises" and base == "C05-STALE":
@@ -333,6 +336,9 @@ class Run:
     def ref_moment(self, m):
         """The same operations written down in another order (reversed)."""
         ops = list(m.operations)
+        if not pending("moment-eq-symmetric-gate-order"):
+            # equal operations written with the qubits of a symmetric gate in the other order
+            ops = [cirq.CZ(*reversed(o.qubits)).with_tags(*o.tags) if o.untagged.gate == cirq.CZ else o for o in ops]
         if pending("moment-eq-qubitless-order"):
             # reverse the operations that act on qubits, keep the relative order of those that do not
             return cirq.Moment([o for o in reversed(ops) if o.qubits] + [o for o in ops if not o.qubits])
@@ -385,6 +391,8 @@ class Run:
             o = self.gen_op()
             if not M.qconf_moment(o, mm):
                 mm.append(o)
+                if not o.qubits and not pending("batch-remove-equal-ops") and self.tape.chance(1, 2, "same-op-twice"):
+                    mm.append(o)   # two equal operations in one moment (only possible without qubits)
         return mm
 
     def gen_items(self, allow_moments: bool = True, lo: int = 0) -> List[Any]:
@@ -448,6 +456,9 @@ class Run:
             return "injected", None
         except (ValueError, IndexError, TypeError, KeyError) as e:
             if expect is not None and type(e).__name__ in expect:
+                return "raised", e
+            if self.pending_fp is not None:
+                self.flag("C05-SUT-EXCEPTION", f"{type(e).__name__}: {e}")
                 return "raised", e
             raise
 
@@ -621,6 +632,8 @@ class Run:
                     if sum(1 for o in m.operations if not o.qubits) >= 2 and \
                             cirq.Moment([o for o in m.operations if o.qubits]) == cirq.Moment([o for o in rm.operations if o.qubits]):
                         fp = "C05-HASH@pending:moment-eq-qubitless-order"
+                    elif any(o.untagged.gate == cirq.CZ for o in m.operations) and m == cirq.Moment(list(reversed(m.operations))):
+                        fp = "C05-HASH@pending:moment-eq-symmetric-gate-order"
                     self.flag("C05-HASH", f"circuit {i} moment {j}: {m!r} and the Moment holding the same operations "
                                           f"in reverse order: == is {m == rm}, equal hashes is {hash(m) == hash(rm)}",
                               fp, who=i)
@@ -664,6 +677,30 @@ class Run:
                                   f"operations in reverse order: (c==ref, ref==c, frozen==, frozen== reversed, equal "
                                   f"hashes, one element in a set, dict lookup) = {facts}", who=i)
             return False
+        if not pending("control-keys-intra-moment-order") and cirq.control_keys(clone) != cirq.control_keys(ref):
+            self.flag("C05-QUERY", f"circuit {i} ({M.show(lv.m)}): cirq.control_keys() = {_short(cirq.control_keys(clone))} "
+                                   f"but {_short(cirq.control_keys(ref))} for the equal circuit whose moments list the "
+                                   f"operations in reverse order", "C05-QUERY@pending:control-keys-intra-moment-order", who=i)
+            return False
+        # next / previous moment, against the model
+        Lm = lv.m
+        e = min(s, n)
+        for qi in range(NQ):
+            occ = [j for j, mm in enumerate(Lm) if any(qi in o.qset for o in mm)]
+            want = (max([j for j in occ if j < e], default=None), min([j for j in occ if j >= e], default=None))
+            got = (clone.prev_moment_operating_on([self.Q[qi]], e), clone.next_moment_operating_on([self.Q[qi]], e))
+            if got != want:
+                self.flag("C05-QUERY", f"circuit {i} ({M.show(Lm)}): (prev, next)_moment_operating_on(q{qi}, {e}) = {got}, "
+                                       f"the operations on q{qi} are in moments {occ}", who=i)
+                return False
+            if not pending("prev-moment-past-end"):
+                far = n + 1 + (s % 2)
+                got1 = clone.prev_moment_operating_on([self.Q[qi]], far)
+                if got1 != max(occ, default=None):
+                    self.flag("C05-QUERY", f"circuit {i} ({M.show(Lm)}): prev_moment_operating_on(q{qi}, {far}) = {got1} "
+                                           f"with {n} moments; the operations on q{qi} are in moments {occ}",
+                              "C05-QUERY@pending:prev-moment-past-end", who=i)
+                    return False
         if self.do_factor:
             if not self.factor_oracle(i, clone):
                 return False
@@ -840,8 +877,16 @@ class Run:
             got["is_parameterized"] = cirq.is_parameterized(c)
             names.append("is_parameterized")
         if mask & 16:
-            got["parameter_names"] = cirq.parameter_names(c)
+            got["parameter_names"] = pn = cirq.parameter_names(c)
             names.append("parameter_names")
+            if not pending("parameter-names-by-reference") and isinstance(pn, set):
+                got["parameter_names"] = set(pn)
+                pn.add("zzz")                  # the caller edits the set it was given
+                if "zzz" in cirq.parameter_names(c):
+                    pn.discard("zzz")
+                    self.flag("C05-STALE:parameter_names", f"circuit {i}: editing the set returned by "
+                              f"cirq.parameter_names(circuit) changes what the next call returns",
+                              "C05-STALE@pending:parameter-names-by-reference")
         if mask & 32:
             got["all_measurement_key_objs"] = c.all_measurement_key_objs()
             got["control_keys"] = cirq.control_keys(c)
@@ -970,10 +1015,14 @@ class Run:
                 self.flag(pr[0], f"{pr[1]}: insert of {self.desc_items(items)} into {M.show(L)} gave {M.show(N)}")
             else:
                 probs = M.check_insert_multi(L, N, index, items, strategy, ret)
+                fp = None
+                if not probs and not pending("earliest-multi-spill"):
+                    probs = M.check_insert_multi(L, N, index, items, strategy, ret, exempt=False)
+                    fp = "C05-ORDER@pending:earliest-multi-spill"
                 if probs:
                     cls, msg = probs[0]
                     self.flag(cls, f"{strategy} insert of [{self.desc_items(items)}] at {k} into {M.show(L)} gave "
-                                   f"{M.show(N)}: {msg}")
+                                   f"{M.show(N)}: {msg}", fp)
         if lv is not None:
             lv.m = N
         return N
@@ -1104,7 +1153,12 @@ class Run:
             if fault == "iter-raises":
                 raise HarnessError(f"iter-raises not delivered by {name}")
             if expect is not None:
-                N = self.decode(lv.c)
+                try:
+                    N = self.decode(lv.c)
+                except AttributeError:       # something that is not a Moment sits in the moment list
+                    self.flag("C05-OVERLAP", f"{name}: the call was accepted and the circuit now holds "
+                                             f"{[type(x).__name__ for x in lv.c.moments]} as moments")
+                    N = lv.m
                 self.flag("C05-NORAISE", f"{name}: the documentation says this call fails ({expect}) but it "
                                          f"returned; circuit {M.show(lv.m)} -> {M.show(N)}")
                 lv.m = N
@@ -1122,13 +1176,15 @@ class Run:
         used = set()
         for _ in range(m):
             i = tp.draw(n + 2, "index")
+            if not loose and not pending("batch-insert-negative-index") and tp.chance(1, 3, "negative-index"):
+                i = i - (n + 2)
             if loose:
                 items = self.gen_items(allow_moments=True, lo=1)
             else:
-                if i in used:
+                if M.clamp_index(n, i) in used:
                     continue
                 items = [self.gen_moment()] if tp.chance(1, 7, "entry-is-moment") else [self.gen_op()]
-            used.add(i)
+            used.add(M.clamp_index(n, i))
             entries.append((i, items))
         fault, k_raise = "ok", None
         if self.want_fault("iter-raises"):
@@ -1141,6 +1197,8 @@ class Run:
             real_entries if tp.chance(1, 2, "as-list") else iter(real_entries))
         all_ops = [o for _, items in entries for o in M.flatten_items(items)]
         self.begin("batch_insert", fault, t, [(i, self.desc_items(items)) for i, items in entries], k_raise, loose)
+        if any(i < 0 for i, _ in entries):
+            self.pending_fp = "batch-insert-negative-index"
         status, _ = self.attempt(lambda: lv.c.batch_insert(arg))
         if status == "injected":
             self.after_failure(t, True, all_ops)
@@ -1213,6 +1271,11 @@ class Run:
 
     def pick_existing(self, L: M.Layout, k: int) -> List[Tuple[int, AOp]]:
         occ = [(i, o) for i, mm in enumerate(L) for o in mm]
+        if pending("batch-remove-equal-ops"):
+            # (two equal operations in one moment arise from zip(c, c) of operations on no qubits)
+            occ = [(i, o) for i, o in occ if sum(1 for x in L[i] if x.uid == o.uid) == 1]
+        else:
+            occ = [e for x, e in enumerate(occ) if e not in occ[:x]]
         out = []
         for _ in range(k):
             if not occ:
@@ -1242,6 +1305,8 @@ class Run:
         real = [(i, self.reg.real(o)) for i, o in rem]
         arg = raising_iter(real, k_raise) if k_raise is not None else real
         self.begin("batch_remove", fault, t, [(i, o.uid) for i, o in rem], k_raise)
+        if any(0 <= i < n and sum(1 for x in L[i] if x.uid == o.uid) > 1 for i, o in rem):
+            self.pending_fp = "batch-remove-equal-ops"
         self.run_atomic(t, "batch_remove", fault, lambda: lv.c.batch_remove(arg),
                         lambda: M.batch_remove(L, rem), [])
 
@@ -1268,6 +1333,8 @@ class Run:
         real = [(i, self.reg.real(o), self.reg.real(nw)) for i, o, nw in rep]
         arg = raising_iter(real, k_raise) if k_raise is not None else real
         self.begin("batch_replace", fault, t, [(i, o.uid, nw.describe()) for i, o, nw in rep], k_raise)
+        if any(0 <= i < n and sum(1 for x in L[i] if x.uid == o.uid) > 1 for i, o, _ in rep):
+            self.pending_fp = "batch-remove-equal-ops"
         self.run_atomic(t, "batch_replace", fault, lambda: lv.c.batch_replace(arg),
                         lambda: M.batch_replace(L, rep), [nw for _, _, nw in rep])
 
@@ -1332,10 +1399,14 @@ class Run:
                 value = self.reg.real(o) if tp.chance(1, 2, "op-or-list") else [self.reg.real(o)]
             else:
                 i = n + tp.draw(2, "over") if tp.chance(1, 2, "over-or-under") else -n - 1 - tp.draw(2, "under")
-        self.begin("setitem_int", fault, t, i, self.desc_items([mm]), bad_kind)
+        npkey = tp.chance(1, 3, "numpy-index") and (bad_kind != 0 or not pending("setitem-numpy-int-skips-type-check"))
+        self.begin("setitem_int", fault, t, i, self.desc_items([mm]), bad_kind, npkey)
+        if npkey and bad_kind == 0:
+            self.pending_fp = "setitem-numpy-int-skips-type-check"
+        key: Any = np.int64(i) if npkey else i
 
         def fn():
-            lv.c[i] = value
+            lv.c[key] = value
 
         def model():
             if bad_kind == 0:
@@ -1644,6 +1715,9 @@ class Run:
         arg = {Q[i]: Q[p] for i, p in qmap.items()} if how in (0, 3) else fn
         exp = [[self.reg.transformed(o, qmap, fn) for o in m] for m in lv.m]
         r = lv.c.transform_qubits(arg)
+        if not pending("transform-qubits-drops-tags") and tuple(r.tags) != tuple(lv.c.tags):
+            self.flag("C05-PLACE", f"transform_qubits on a circuit with tags {lv.c.tags} returned tags {r.tags}",
+                      "C05-PLACE@pending:transform-qubits-drops-tags")
         self.result_exact(r, exp, [t], "transform_qubits")
 
     def call_with_tags(self) -> None:
@@ -1681,7 +1755,11 @@ class Run:
             r = lv.c[sl, self.Q[qs[0]]]
         else:
             qs = sorted({tp.draw(NQ, "qubit"), tp.draw(NQ, "qubit")})
-            r = lv.c[sl, [self.Q[q] for q in qs]]
+            if not pending("slice-qubits-one-shot-iterable") and tp.chance(1, 2, "qubits-generator"):
+                self.pending_fp = "slice-qubits-one-shot-iterable"
+                r = lv.c[sl, (self.Q[q] for q in qs)]
+            else:
+                r = lv.c[sl, [self.Q[q] for q in qs]]
         self.result_exact(r, M.slice_layout(lv.m, sl, qs), [t], "slice", "C05-LOST")
 
     def call_freeze(self) -> None:
@@ -1762,9 +1840,11 @@ class Run:
             self.step_no = s
             self.touched = set()
             self.mutated = set()
+            self.pending_fp = None
             name = CALLS[tp.weighted(weights, "call")]
             getattr(self, "call_" + {"clear": "clear"}.get(name, name))()
             ctx.steps += 1
+            self.pending_fp = None
             self.check_all(final=(s == n_calls))
             self.workload_queries()
         ctx.sample = {"circuits": n_init, "calls": n_calls, "profile": profile, "faults": sorted(self.faults_on.items()),
